@@ -96,20 +96,8 @@ def _truthy(x):
     return len(x) != 0
 
 
-def op_verify(st):
-    if len(st) < 1:
-        return None
-    if not _truthy(st[-1]):
-        return None
-    return st[:-1]
 
 
-def op_ifdup(st):
-    if len(st) < 1:
-        return None
-    if _truthy(st[-1]):
-        return st + [st[-1]]
-    return st
 
 
 def _unary_raw(st, f):
@@ -128,36 +116,14 @@ def _binary_raw(st, f):
     return st[:-2] + [f(st[-2], st[-1])]
 
 
-def op_not(st):
-    return _unary_raw(st, lambda a: _b(not _truthy(a)))
 
 
-def op_0notequal(st):
-    return _unary_raw(st, lambda a: _b(_truthy(a)))
 
 
-def op_booland(st):
-    return _binary_raw(st, lambda a, b: _b(_truthy(a) and _truthy(b)))
 
 
-def op_boolor(st):
-    return _binary_raw(st, lambda a, b: _b(_truthy(a) or _truthy(b)))
 
 
-def op_numequal(st):
-    """observed: byte-wise comparison of the operands"""
-    return _binary_raw(st, lambda a, b: _b(a == b))
 
 
-def op_numnotequal(st):
-    return _binary_raw(st, lambda a, b: _b(a != b))
 
-
-def op_numequalverify(st):
-    """observed: the result of the comparison step is ignored, so operands longer than 4 bytes fall through to VERIFY"""
-    if len(st) < 2:
-        return None
-    r = op_numequal(st)
-    if r is None:
-        return op_verify(st)
-    return op_verify(r)
